@@ -268,6 +268,21 @@ fn bytes_mode(inputs: &[Vec<u8>], seed: u64, fuzz: usize, si: usize, sn: usize, 
             }
         }
     }
+    // absurd lengths NESTED: k array headers in a row whose declared lengths are near the top of i64 (whatever a reader
+    // keeps about the frames still to come, sums of such lengths leave every machine integer), alone, followed by an
+    // element, and followed by an absurd bulk header
+    for n in ["9223372036854775807", "9223372036854775806", "4611686018427387904", "6148914691236517206", "18446744073709551615", "4294967296", "2147483648"] {
+        for k in 1..=5usize {
+            for tail in ["", ":1\r\n", "$9223372036854775807\r\n", "*0\r\n", "$1\r\na\r\n"] {
+                let mut v: Vec<u8> = vec![];
+                for _ in 0..k {
+                    v.extend_from_slice(format!("*{n}\r\n").as_bytes());
+                }
+                v.extend_from_slice(tail.as_bytes());
+                extra.push(("nested-absurd".into(), v, 0));
+            }
+        }
+    }
     // the null bulk header and its neighbours, alone and followed by another frame
     for h in ["$-1\r\n", "$-01\r\n", "$-001\r\n", "$-0\r\n\r\n", "$-0\r\n", "$-00\r\n\r\n", "$-1x\r\n", "$--1\r\n", "$-10\r\n", "$-\r\n\r\n",
               "$-1\r\r\n", "$+1\r\na\r\n", "$-+1\r\n", "$- 1\r\n", "$-1\n\r\n", "$-2\r\n"] {
